@@ -24,7 +24,8 @@ EXPLANATION = (
     "Python-side startswith() selections are required to have a separator-terminated operand on every path. "
     "dir_range_upper itself is folded on probe strings; label normal forms (tree labels end in '/', file labels "
     "never) and root awareness of each selection are checked structurally. Decides the structural clauses, not the "
-    "value-level equality of the selected sets (which follows from them under the assumption below)."
+    "value-level equality of the selected sets (which follows from them under the assumption below). "
+    'Also: BETWEEN on a label is classified (inclusive upper bound) and the three sibling sites that select outputs under a directory target must each keep the half-open range.'
 )
 ASSUMPTIONS = [
     "SQLite's BINARY collation compares UTF-8 text with memcmp and '=' on a BINARY column is byte equality",
